@@ -165,6 +165,7 @@ class Sched(object):
         self.trace = []
         self.pipe_capacity = pipe_capacity
         self.io_points = io_points
+        self.create_points = False
         self.monitor = monitor
         self.root = root  # scratch directory of this execution (paths are relativised to it)
         self.locks = {}  # relpath -> pid holding
@@ -994,6 +995,41 @@ class Patched(object):
             return real_open(path, flags, *a, **k)
 
         os.open = os_open
+        # removing a directory under the scratch root: visible (another process may be about to create a file in it)
+        self.real_rmdir = os.rmdir
+        real_rmdir = self.real_rmdir
+
+        def rmdir(path, *a, **k):
+            pr = current_proc()
+            if pr is not None and sched.root and isinstance(path, str) and path.startswith(sched.root) and not sched.aborting and not pr.in_fsop and not k:
+                pr.in_fsop = True
+                try:
+                    return sched.op("fsop", "rmdir", path, real_rmdir, (path,) + a)
+                finally:
+                    pr.in_fsop = False
+            return real_rmdir(path, *a, **k)
+
+        os.rmdir = rmdir
+        # creating a file (open for writing) under the scratch root as a scheduling point of its own, for harnesses
+        # that ask for it (create_points): the directory it is created in may have been removed meanwhile
+        import builtins
+
+        self.real_builtin_open = builtins.open
+        real_bopen = self.real_builtin_open
+
+        def b_open(file, mode="r", *a, **k):
+            if sched.create_points and isinstance(file, str) and isinstance(mode, str) and mode[:1] in "wxa" and sched.root and file.startswith(sched.root):
+                pr = current_proc()
+                if pr is not None and not sched.aborting and not pr.in_fsop:
+                    pr.in_fsop = True
+                    try:
+                        return sched.op("fsop", "create", file, lambda *aa: real_bopen(*aa, **k), (file, mode) + a)
+                    finally:
+                        pr.in_fsop = False
+            return real_bopen(file, mode, *a, **k)
+
+        if sched.create_points:
+            builtins.open = b_open
         # process identity: every virtual process has its own pid, and its parent's as ppid (what fork gives)
         self.real_getpid, self.real_getppid = os.getpid, os.getppid
         real_getpid, real_getppid = self.real_getpid, self.real_getppid
@@ -1057,6 +1093,10 @@ class Patched(object):
         os.remove = self.real_remove
         os.replace, os.rename = self.real_replace, self.real_rename
         os.open = self.real_open
+        os.rmdir = self.real_rmdir
+        import builtins
+
+        builtins.open = self.real_builtin_open
         os.getpid, os.getppid = self.real_getpid, self.real_getppid
         import time as _time
 
